@@ -509,7 +509,7 @@ def model_line(c: dict, inp: dict, plan: dict) -> str:
     if ax is not None:
         axs = (ax,) if isinstance(ax, int) else tuple(ax)
         axis_in_by = all((a % arr.ndim) >= arr.ndim - by.ndim for a in axs)
-    return ("c19validate fk=%s qgiven=%d eng=%s dtypegiven=%d method=%s reindex=%s bydask=%d arrdask=%d nax=%d ndim=%d "
+    return ("c19validate fk=%s qgiven=%d eng=%s dtypegiven=%d dtypeint=0 method=%s reindex=%s bydask=%d arrdask=%d nax=%d ndim=%d "
             "expected=%d float=%d preferred=%s cohortsempty=%d single=%d sorted=%d numbagg=%d aligned=%d countmask=%d" % (
                 func_kind(c["func"]), 0 if c.get("extra") == "noq" else 1, c["engine"] or "none",
                 1 if c.get("extra") == "dtype" else 0, c["method"] or "none",
